@@ -277,6 +277,12 @@ def norm_log(log):
 
 def run_export(c):
     rec = {}
+    if c.get('ops_norm') is not None:
+        # the same model written without reorder_pops (populations kept in creation order): a native reference whose
+        # integrations run in the order in which the re-imported graph is integrated
+        del LOG[:]
+        rec['fsN'] = fs_out(run_native(c['ops_norm'], c['ns'], c['pts']))
+        rec['callsN'] = list(LOG)
     del LOG[:]
     if c.get('ops') is not None:
         fs0 = run_native(c['ops'], c['ns'], c['pts'])
